@@ -24,8 +24,14 @@ type repCfg struct {
 }
 
 func (c repCfg) clock() fixedClock {
+	if c.Unix == zeroInstant && c.ZoneMin == 0 {
+		return fixedClock{time.Time{}} // the zero value of time.Time: a clock nobody set is still a configured time
+	}
 	return fixedClock{time.Unix(c.Unix, 0).In(time.FixedZone("", c.ZoneMin*60))}
 }
+
+// zeroInstant is 0001-01-01T00:00:00Z in Unix seconds
+const zeroInstant = -62135596800
 
 func (c repCfg) report() config.ReportConfiguration {
 	return config.ReportConfiguration{IncludeReportCreationTime: c.Include, ReportSchemaIri: c.ReportIri, LexicalSchemaIri: c.LexIri}
@@ -37,13 +43,21 @@ func genRepCfg(t *rapid.T, label string) repCfg {
 		rapid.StringMatching(`[a-z]{1,5}://[a-zA-Z0-9./_-]{0,12}`),
 		rapid.StringN(0, 12, -1),
 	)
-	return repCfg{
+	c := repCfg{
 		Include:   rapid.Bool().Draw(t, label+"Include"),
 		ReportIri: iri.Draw(t, label+"ReportIri"),
 		LexIri:    iri.Draw(t, label+"LexIri"),
 		Unix:      rapid.Int64Range(0, 253402300799).Draw(t, label+"Unix"),
 		ZoneMin:   rapid.IntRange(-12*60, 14*60).Draw(t, label+"Zone"),
 	}
+	// boundary instants: the zero time (also as the zero value of time.Time), the epoch, one second either side
+	if rapid.IntRange(0, 5).Draw(t, label+"BoundaryInstant") == 0 {
+		c.Unix = rapid.SampledFrom([]int64{zeroInstant, zeroInstant, zeroInstant + 1, 0, -1, 1, 253402300799}).Draw(t, label+"Instant")
+		if rapid.Bool().Draw(t, label+"UTC") {
+			c.ZoneMin = 0
+		}
+	}
+	return c
 }
 
 type c03Case struct {
